@@ -18,6 +18,7 @@
 //!   S  bytes   relocation self test (static pointer tables)
 //!   B  base u64, checked u32, skipped u32, modified u32, first (offset, value) 2 x u64, bait_ok u8, data_ok u8,
 //!      link-time offsets of C07_BAIT, C07_DATA_CANARY, INBUF (3 x u64): relocation bait / canary check done at main entry
+//!   H / h  Iterator API histories over args_os() / args(), see `run_history`
 //!   Z  "done"
 //! All I/O of the probe itself uses its own raw syscalls, not rusl.
 #![no_std]
@@ -186,7 +187,7 @@ fn echo_args() {
     }
 }
 
-fn lookups(input: &[u8], mut off: usize, nkeys: u32) {
+fn lookups(input: &[u8], mut off: usize, nkeys: u32) -> usize {
     use tiny_std::env::VarError;
     for _ in 0..nkeys {
         let len = match u32_at(input, off) {
@@ -242,6 +243,235 @@ fn lookups(input: &[u8], mut off: usize, nkeys: u32) {
             }
             Err(_) => rec(b'v', &[]),
         }
+    }
+    off
+}
+
+// ---- Iterator API histories over args_os() / args() ---------------------------------------------------------
+// After the keys the input may carry: u32 nhist, then per history u32 nops and nops x (op u8, a u32, b u32).
+// Every history is run on a fresh args_os() and on a fresh args(). Output: 'H' (history index u32, which u8:
+// 0 args_os / 1 args, then len, size_hint.lo, has_hi, size_hint.hi as 4 x u64) and per op 'h' (op u8, nitems u32,
+// nnums u32, items (status u8: 1 Ok / 2 Err, len u64, adler32 u64, first byte u8), nums u64..., then the same 4 u64
+// of len()/size_hint() after the op). Every adaptor is bounded by take(b) so that a cursor that runs backwards
+// shows up as "more items than argc" in the driver instead of a hang. a == 0xFFFF_FFFF means usize::MAX.
+const OP_NEXT: u8 = 1;
+const OP_NTH: u8 = 2;
+const OP_SKIP_TAKE: u8 = 3;
+const OP_STEP_TAKE: u8 = 4;
+const OP_TAKE: u8 = 5;
+const OP_LAST: u8 = 6;
+const OP_COUNT: u8 = 7;
+const OP_FOLD: u8 = 8;
+const OP_SKIP_NTH: u8 = 9;
+const OP_FRESH: u8 = 10;
+const OP_FOR_BREAK: u8 = 11;
+const OP_SKIP_WHILE_LEN: u8 = 12;
+
+/// Adler-32 (zlib.adler32 in the driver)
+fn fnv(b: &[u8]) -> u64 {
+    let mut a: u32 = 1;
+    let mut c: u32 = 0;
+    for x in b {
+        a = (a + *x as u32) % 65521;
+        c = (c + a) % 65521;
+    }
+    ((c as u64) << 16) | a as u64
+}
+
+struct Desc {
+    status: u8,
+    len: u64,
+    hash: u64,
+    first: u8,
+}
+
+fn desc_bytes(status: u8, b: &[u8]) -> Desc {
+    Desc { status, len: b.len() as u64, hash: fnv(b), first: if b.is_empty() { 0 } else { b[0] } }
+}
+
+const HBUF_CAP: usize = 1 << 15;
+static mut HBUF: [u8; HBUF_CAP] = [0; HBUF_CAP];
+
+struct OpOut {
+    pos: usize,
+    nitems: u32,
+    nnums: u32,
+    truncated: bool,
+}
+
+impl OpOut {
+    fn new() -> Self {
+        OpOut { pos: 0, nitems: 0, nnums: 0, truncated: false }
+    }
+    fn bytes(&mut self, b: &[u8]) {
+        unsafe {
+            if self.pos + b.len() > HBUF_CAP {
+                self.truncated = true;
+                return;
+            }
+            core::ptr::copy_nonoverlapping(b.as_ptr(), HBUF.as_mut_ptr().add(self.pos), b.len());
+            self.pos += b.len();
+        }
+    }
+    fn item(&mut self, d: Desc) {
+        self.nitems += 1;
+        self.bytes(&[d.status]);
+        self.bytes(&d.len.to_le_bytes());
+        self.bytes(&d.hash.to_le_bytes());
+        self.bytes(&[d.first]);
+    }
+    fn num(&mut self, v: u64) {
+        self.nnums += 1;
+        self.bytes(&v.to_le_bytes());
+    }
+}
+
+fn usz(a: u32) -> usize {
+    if a == u32::MAX {
+        usize::MAX
+    } else {
+        a as usize
+    }
+}
+
+fn state_nums<I: ExactSizeIterator>(it: &I) -> [u64; 4] {
+    let (lo, hi) = it.size_hint();
+    [it.len() as u64, lo as u64, hi.is_some() as u64, hi.unwrap_or(0) as u64]
+}
+
+fn run_history<I, F, D>(hidx: u32, which: u8, ops: &[u8], fresh: F, d: D)
+where
+    I: Iterator + ExactSizeIterator,
+    F: Fn() -> I,
+    D: Fn(I::Item) -> Desc + Copy,
+{
+    let mut it = fresh();
+    let st = state_nums(&it);
+    rec(
+        b'H',
+        &[&hidx.to_le_bytes(), &[which], &st[0].to_le_bytes(), &st[1].to_le_bytes(), &st[2].to_le_bytes(), &st[3].to_le_bytes()],
+    );
+    let mut i = 0;
+    while i + 9 <= ops.len() {
+        let op = ops[i];
+        let a = u32_at(ops, i + 1).unwrap_or(0);
+        let b = u32_at(ops, i + 5).unwrap_or(0);
+        i += 9;
+        let mut o = OpOut::new();
+        match op {
+            OP_NEXT => {
+                if let Some(x) = it.next() {
+                    o.item(d(x));
+                }
+            }
+            OP_NTH => {
+                if let Some(x) = it.nth(usz(a)) {
+                    o.item(d(x));
+                }
+            }
+            OP_SKIP_TAKE => {
+                for x in it.by_ref().skip(usz(a)).take(b as usize) {
+                    o.item(d(x));
+                }
+            }
+            OP_STEP_TAKE => {
+                let step = if a == 0 { 1 } else { usz(a) };
+                for x in it.by_ref().step_by(step).take(b as usize) {
+                    o.item(d(x));
+                }
+            }
+            OP_TAKE => {
+                for x in it.by_ref().take(b as usize) {
+                    o.item(d(x));
+                }
+            }
+            OP_LAST => {
+                if let Some(x) = it.by_ref().take(b as usize).last() {
+                    o.item(d(x));
+                }
+            }
+            OP_COUNT => {
+                let c = it.by_ref().take(b as usize).count();
+                o.num(c as u64);
+            }
+            OP_FOLD => {
+                let (c, h) = it.by_ref().take(b as usize).fold((0u64, 0u64), |(c, h), x| {
+                    let dd = d(x);
+                    (c + 1, h.rotate_left(7) ^ dd.hash ^ dd.len ^ ((dd.status as u64) << 56))
+                });
+                o.num(c);
+                o.num(h);
+            }
+            OP_SKIP_NTH => {
+                if let Some(x) = it.by_ref().skip(usz(a)).nth(b as usize) {
+                    o.item(d(x));
+                }
+            }
+            OP_FRESH => {
+                it = fresh();
+            }
+            OP_FOR_BREAK => {
+                // the usual idiom: a for loop over by_ref() left early
+                let mut seen = 0u32;
+                for x in it.by_ref() {
+                    o.item(d(x));
+                    seen += 1;
+                    if seen >= b {
+                        break;
+                    }
+                }
+            }
+            OP_SKIP_WHILE_LEN => {
+                // skip_while / find style consumption: stop at the first item whose length is >= a
+                let mut budget = b;
+                while budget > 0 {
+                    budget -= 1;
+                    match it.next() {
+                        Some(x) => {
+                            let dd = d(x);
+                            let stop = dd.len >= a as u64;
+                            o.item(dd);
+                            if stop {
+                                break;
+                            }
+                        }
+                        None => break,
+                    }
+                }
+            }
+            _ => {}
+        }
+        let st = state_nums(&it);
+        for v in st {
+            o.num(v);
+        }
+        let body = unsafe { core::slice::from_raw_parts(HBUF.as_ptr(), o.pos) };
+        rec(b'h', &[&[op, o.truncated as u8], &o.nitems.to_le_bytes(), &o.nnums.to_le_bytes(), body]);
+    }
+}
+
+fn histories(input: &[u8], mut off: usize) {
+    let nhist = match u32_at(input, off) {
+        Some(n) => n,
+        None => return,
+    };
+    off += 4;
+    for h in 0..nhist {
+        let nops = match u32_at(input, off) {
+            Some(n) => n as usize,
+            None => die(3, b"start_probe: truncated history stream\n"),
+        };
+        off += 4;
+        if off + nops * 9 > input.len() {
+            die(3, b"start_probe: truncated history ops\n");
+        }
+        let ops = &input[off..off + nops * 9];
+        off += nops * 9;
+        run_history(h, 0, ops, tiny_std::env::args_os, |x: &'static UnixStr| desc_bytes(1, no_nul(x)));
+        run_history(h, 1, ops, tiny_std::env::args, |x: Result<&'static str, tiny_std::Error>| match x {
+            Ok(s) => desc_bytes(1, s.as_bytes()),
+            Err(_) => desc_bytes(2, &[]),
+        });
     }
 }
 
@@ -773,7 +1003,8 @@ pub fn main() -> i32 {
     let nkeys = u32_at(input, 8).unwrap_or(0);
     put(b"C07P");
     echo_args();
-    lookups(input, 12, nkeys);
+    let off = lookups(input, 12, nkeys);
+    histories(input, off);
     aux_section();
     resolve_again();
     if iters > 0 {
